@@ -124,14 +124,14 @@ func strWorker(w *vf.Worker) {
 				got, pn = call(func() *mlrval.Mlrval { return bifs.BIF_substr_0_up(sval(s), mm, nn) })
 				ck.cmp("substr0", size, fmt.Sprintf("substr0(%s,%d,%d)", q(s), m, n), "substr0", got, pn, wants[1], map[string]any{"s": s, "m": m, "n": n})
 				if dslErr == "" {
-					ck.cmpRendered("slice", size, fmt.Sprintf("%s[%d:%d]", q(s), m, n), "[m:n]", sliceGot[p], wants[2], map[string]any{"s": s, "m": m, "n": n})
+					ck.cmpRendered(sliceGroup(s, "slice"), size, fmt.Sprintf("%s[%d:%d]", q(s), m, n), "[m:n]", sliceGot[p], wants[2], map[string]any{"s": s, "m": m, "n": n})
 				}
 				p++
 			}
 		}
 		if dslErr == "" {
 			for k := idxLo; k <= idxHi; k++ {
-				ck.cmpRendered("index-access", size, fmt.Sprintf("%s[%d]", q(s), k), "[k]", singleGot[k-idxLo], sub.Singles[k-idxLo], map[string]any{"s": s, "k": k})
+				ck.cmpRendered(sliceGroup(s, "index-access"), size, fmt.Sprintf("%s[%d]", q(s), k), "[k]", singleGot[k-idxLo], sub.Singles[k-idxLo], map[string]any{"s": s, "k": k})
 			}
 		}
 		// truncate / leftpad / rightpad
@@ -185,6 +185,14 @@ func (c *checker) cmpRendered(group string, size int, caseKey, fn string, got st
 		replay["expected"] = show(want)
 		w.Violation(fmt.Sprintf("%s:%02d:%s", group, size, caseKey), fmt.Sprintf("%s = %s; reference: %s", caseKey, show(got), show(want)), replay)
 	}
+}
+
+// sliceGroup puts the cause into the violation group.
+func sliceGroup(s, base string) string {
+	if s == "" {
+		return base + "[empty-string]"
+	}
+	return base
 }
 
 const sliceProgram = `for (m = -5; m <= 5; m += 1) { for (n = -5; n <= 5; n += 1) { print "[" . $s[m:n] . "]"; } }
